@@ -31,7 +31,7 @@ BUILD = os.path.join(ROOT, "build")
 EVID = os.path.join(ROOT, "evidence")
 REPLAYS = os.path.join(ROOT, "replays")
 GUARD = "VITA_VERIF"
-NPROC = os.cpu_count() or 4
+NPROC = int(os.environ.get("VERIF_JOBS") or 0) or os.cpu_count() or 4
 
 ALLOWED_AXIOMS = {"propext", "Classical.choice", "Quot.sound"}
 FORBIDDEN = re.compile(
